@@ -765,14 +765,23 @@ fn run_once(c: &FCase) -> FOut {
 /// `--prop C02`: the same cases, reported for C02 ("no sequence of safe API calls makes the crate read or write outside a live
 /// allocation ... free memory twice ... access memory after it was freed" - calling a safe trait impl that lies is such a sequence).
 /// Only the memory-safety oracles count there; a leak is C17's (and C03's) business, not C02's.
-static C02_MODE: std::sync::atomic::AtomicBool = std::sync::atomic::AtomicBool::new(false);
+///
+/// `--prop C04`: only consumers whose target is a `BytesMut`, and only the oracles that say its region left its allocation or
+/// reached into a sibling's region (C04 "regions ... pairwise disjoint ... contained in a single live allocation, so a write through
+/// one BytesMut is never visible through another handle").
+static REPORT_MODE: std::sync::atomic::AtomicU8 = std::sync::atomic::AtomicU8::new(0); // 0 = C17, 1 = C02, 2 = C04
 
 pub fn run_fcase(c: &FCase) -> FOut {
     let mut o = run_once(c);
     if matches!(&o.viol, Some((k, _)) if k == "leak") {
         o = run_once(c);
     }
-    if C02_MODE.load(std::sync::atomic::Ordering::Relaxed) && matches!(&o.viol, Some((k, _)) if k == "leak") {
+    let keep = match (REPORT_MODE.load(std::sync::atomic::Ordering::Relaxed), &o.viol) {
+        (_, None) | (0, _) => true,
+        (1, Some((k, _))) => k != "leak",
+        (_, Some((k, _))) => CONSUMERS[c.consumer as usize % CONSUMERS.len()].contains("BytesMut") && (k == "write-into-sibling-region" || k.starts_with("allocator:RedZone")),
+    };
+    if !keep {
         o.viol = None;
     }
     o
@@ -822,8 +831,12 @@ pub fn main_fault(args: &Args) -> i32 {
     let workers = args.u64("workers", 1).max(1);
     let cases = args.u64("cases", 10000);
     let mut viols: Vec<Value> = Vec::new();
-    let prop: &'static str = if args.kv.get("prop").map(|s| s.as_str()) == Some("C02") { "C02" } else { "C17" };
-    C02_MODE.store(prop == "C02", std::sync::atomic::Ordering::Relaxed);
+    let prop: &'static str = match args.kv.get("prop").map(|s| s.as_str()) {
+        Some("C02") => "C02",
+        Some("C04") => "C04",
+        _ => "C17",
+    };
+    REPORT_MODE.store(match prop { "C02" => 1, "C04" => 2, _ => 0 }, std::sync::atomic::Ordering::Relaxed);
     let record = |c: &FCase, o: &FOut, how: &str, viols: &mut Vec<Value>| {
         let (k, d) = o.viol.clone().unwrap();
         viols.push(json!({"property": prop, "oracle": k, "detail": d, "op": CONSUMERS[c.consumer as usize % CONSUMERS.len()], "found_by": how, "profile": util::profile_name(), "replay": c.to_json(),
